@@ -39,10 +39,11 @@ Record aio := mkAio {
   g_stop_returned : bool;          (* nni_aio_stop has returned *)
   g_cb_after_stop : bool;          (* a callback of an operation submitted before stop started after stop returned *)
   g_subs_at_stop : nat;
-  threads : list (list pact) }.    (* continuations, one list per thread, executed in order *)
+  threads : list (list pact);      (* continuations, one list per thread, executed in order *)
+  a_done : bool }.                 (* the operation has completed (until the next one is set up); framework field since fix e9a11c8 *)
 
 Definition aio_init : aio :=
-  mkAio false false false false false false false None 0 0 false 0 0 false false 0 0 None false false false false 0 [].
+  mkAio false false false false false false false None 0 0 false 0 0 false false 0 0 None false false false false 0 [] false.
 
 Inductive alabel :=
 | LStart (zero_timeout : bool) (deadline : option N) (sleep : bool) (expire_ok : bool)
@@ -60,7 +61,7 @@ Inductive alabel :=
 Definition upd_threads (s : aio) (t : list (list pact)) : aio :=
   mkAio (a_stop s) (a_abort s) (a_expiring s) (a_expire_ok s) (a_sleep s) (a_cancel s) (a_on_eq s) (a_expire s)
         (a_result s) (t_busy s) (t_prep s) (t_queued s) (t_running s) (p_owns s) (p_sleep s) (g_subs s) (g_cbs s)
-        (g_fin s) (g_bad_result s) (g_early s) (g_stop_returned s) (g_cb_after_stop s) (g_subs_at_stop s) t.
+        (g_fin s) (g_bad_result s) (g_early s) (g_stop_returned s) (g_cb_after_stop s) (g_subs_at_stop s) t (a_done s).
 
 Definition spawn (s : aio) (k : list pact) : aio :=
   match k with [] => s | _ => upd_threads s (threads s ++ [k]) end.
@@ -70,14 +71,14 @@ Definition do_dispatch (s : aio) : aio :=
   mkAio (a_stop s) (a_abort s) (a_expiring s) (a_expire_ok s) (a_sleep s) (a_cancel s) (a_on_eq s) (a_expire s)
         (a_result s) (if t_prep s then t_busy s else S (t_busy s)) false (S (t_queued s)) (t_running s)
         (p_owns s) (p_sleep s) (g_subs s) (g_cbs s) (g_fin s) (g_bad_result s) (g_early s)
-        (g_stop_returned s) (g_cb_after_stop s) (g_subs_at_stop s) (threads s).
+        (g_stop_returned s) (g_cb_after_stop s) (g_subs_at_stop s) (threads s) (a_done s).
 
 (* nni_aio_finish_impl, the eq_mtx section; the dispatch is the thread's next action *)
 Definition do_finish (s : aio) (rv : N) : aio :=
   mkAio (a_stop s) (a_abort s) (a_expiring s) (a_expire_ok s) false false false None
         rv (t_busy s) (t_prep s) (t_queued s) (t_running s) (p_owns s) (p_sleep s) (g_subs s) (g_cbs s)
         (match g_fin s with None => Some rv | x => x end) (g_bad_result s) (g_early s)
-        (g_stop_returned s) (g_cb_after_stop s) (g_subs_at_stop s) (threads s).
+        (g_stop_returned s) (g_cb_after_stop s) (g_subs_at_stop s) (threads s) true.
 
 (* the provider's cancel function (under the provider's lock; nni_sleep_cancel under eq_mtx) *)
 Definition do_call_cancel (s : aio) (rv : N) : aio * list pact :=
@@ -85,7 +86,7 @@ Definition do_call_cancel (s : aio) (rv : N) : aio * list pact :=
     (mkAio (a_stop s) (a_abort s) (a_expiring s) (a_expire_ok s) (if p_sleep s then false else a_sleep s)
            (a_cancel s) (if p_sleep s then false else a_on_eq s) (a_expire s) (a_result s)
            (t_busy s) (t_prep s) (t_queued s) (t_running s) false (p_sleep s) (g_subs s) (g_cbs s) (g_fin s)
-           (g_bad_result s) (g_early s) (g_stop_returned s) (g_cb_after_stop s) (g_subs_at_stop s) (threads s),
+           (g_bad_result s) (g_early s) (g_stop_returned s) (g_cb_after_stop s) (g_subs_at_stop s) (threads s) (a_done s),
      [PFinish rv])
   else (s, []).
 
@@ -97,7 +98,7 @@ Definition do_expire_proc (fixed : bool) (s : aio) (now : N) : aio * list pact :
   if fixed && negb due then
     (mkAio (a_stop s) (a_abort s) false (a_expire_ok s) (a_sleep s) (a_cancel s) (a_on_eq s) (a_expire s)
            (a_result s) (t_busy s) (t_prep s) (t_queued s) (t_running s) (p_owns s) (p_sleep s) (g_subs s) (g_cbs s)
-           (g_fin s) (g_bad_result s) (g_early s) (g_stop_returned s) (g_cb_after_stop s) (g_subs_at_stop s) (threads s), [])
+           (g_fin s) (g_bad_result s) (g_early s) (g_stop_returned s) (g_cb_after_stop s) (g_subs_at_stop s) (threads s) (a_done s), [])
   else
     let rv := if a_expire_ok s then A_OK else A_TIMEDOUT in
     (* a timeout delivered to an operation whose deadline has not passed *)
@@ -106,17 +107,17 @@ Definition do_expire_proc (fixed : bool) (s : aio) (now : N) : aio * list pact :
       (mkAio (a_stop s) (a_abort s) false false false false false (a_expire s) rv
              (t_busy s) (t_prep s) (t_queued s) (t_running s) false (p_sleep s) (g_subs s) (g_cbs s)
              (match g_fin s with None => Some rv | x => x end) (g_bad_result s) early
-             (g_stop_returned s) (g_cb_after_stop s) (g_subs_at_stop s) (threads s), [PDispatch])
+             (g_stop_returned s) (g_cb_after_stop s) (g_subs_at_stop s) (threads s) true, [PDispatch])
     else if a_cancel s then
       (mkAio (a_stop s) (a_abort s) true false (a_sleep s) false false (a_expire s) (a_result s)
              (t_busy s) (t_prep s) (t_queued s) (t_running s) (p_owns s) (p_sleep s) (g_subs s) (g_cbs s)
              (g_fin s) (g_bad_result s) early (g_stop_returned s) (g_cb_after_stop s)
-             (g_subs_at_stop s) (threads s), [PCallCancel rv; PExpireDone])
+             (g_subs_at_stop s) (threads s) (a_done s), [PCallCancel rv; PExpireDone])
     else
       (mkAio (a_stop s) (a_abort s) false false (a_sleep s) false false (a_expire s) (a_result s)
              (t_busy s) (t_prep s) (t_queued s) (t_running s) (p_owns s) (p_sleep s) (g_subs s) (g_cbs s)
              (g_fin s) (g_bad_result s) early (g_stop_returned s) (g_cb_after_stop s)
-             (g_subs_at_stop s) (threads s), []).
+             (g_subs_at_stop s) (threads s) (a_done s), []).
 
 Definition run_pact (fixed : bool) (s : aio) (a : pact) : option (aio * list pact) :=
   match a with
@@ -128,13 +129,13 @@ Definition run_pact (fixed : bool) (s : aio) (a : pact) : option (aio * list pac
       Some (mkAio (a_stop s) (a_abort s) false (a_expire_ok s) (a_sleep s) (a_cancel s) (a_on_eq s) (a_expire s)
                   (a_result s) (t_busy s) (t_prep s) (t_queued s) (t_running s) (p_owns s) (p_sleep s) (g_subs s)
                   (g_cbs s) (g_fin s) (g_bad_result s) (g_early s) (g_stop_returned s) (g_cb_after_stop s)
-                  (g_subs_at_stop s) (threads s), [])
+                  (g_subs_at_stop s) (threads s) (a_done s), [])
   | PStopWait =>
       if t_busy s =? 0 then
         Some (mkAio (a_stop s) (a_abort s) (a_expiring s) (a_expire_ok s) (a_sleep s) (a_cancel s) (a_on_eq s)
                     (a_expire s) (a_result s) (t_busy s) (t_prep s) (t_queued s) (t_running s) (p_owns s) (p_sleep s)
                     (g_subs s) (g_cbs s) (g_fin s) (g_bad_result s) (g_early s) true (g_cb_after_stop s)
-                    (g_subs s) (threads s), [])
+                    (g_subs s) (threads s) (a_done s), [])
       else None                  (* nni_task_wait blocks while busy *)
   end.
 
@@ -151,7 +152,7 @@ Fixpoint replace_nth {A} (l : list A) (k : nat) (x : option A) : list A :=
 Definition outstanding (s : aio) : bool :=
   p_owns s || negb (t_queued s =? 0) || existsb (fun t => existsb (fun a => match a with PFinish _ | PDispatch => true | _ => false end) t) (threads s).
 
-Definition astep (fixed : bool) (s : aio) (l : alabel) : option aio :=
+Definition astep (fixed fdone : bool) (s : aio) (l : alabel) : option aio :=
   match l with
   | LStart zero dl sleep eok =>
       (* the caller's contract: one operation at a time *)
@@ -163,29 +164,29 @@ Definition astep (fixed : bool) (s : aio) (l : alabel) : option aio :=
         Some (spawn (mkAio true (a_abort s) (a_expiring s) false false (a_cancel s) (a_on_eq s) dl A_STOPPED
                            busy true (t_queued s) (t_running s) false sleep subs (g_cbs s) (Some A_STOPPED)
                            (g_bad_result s) (g_early s) (g_stop_returned s) (g_cb_after_stop s) (g_subs_at_stop s)
-                           (threads s)) [PDispatch])
+                           (threads s) true) [PDispatch])
       else if a_abort s then
         Some (spawn (mkAio false false (a_expiring s) false false (a_cancel s) (a_on_eq s) dl (a_result s)
                            busy true (t_queued s) (t_running s) false sleep subs (g_cbs s) (Some (a_result s))
                            (g_bad_result s) (g_early s) (g_stop_returned s) (g_cb_after_stop s) (g_subs_at_stop s)
-                           (threads s)) [PDispatch])
+                           (threads s) true) [PDispatch])
       else if zero then
         let rv := if eok' then A_OK else A_TIMEDOUT in
         Some (spawn (mkAio false false (a_expiring s) false false (a_cancel s) (a_on_eq s) dl rv
                            busy true (t_queued s) (t_running s) false sleep subs (g_cbs s) (Some rv)
                            (g_bad_result s) (g_early s) (g_stop_returned s) (g_cb_after_stop s) (g_subs_at_stop s)
-                           (threads s)) [PDispatch])
+                           (threads s) true) [PDispatch])
       else
         Some (mkAio false false (a_expiring s) eok' sleep true (match dl with Some _ => true | None => false end) dl A_OK
                     busy true (t_queued s) (t_running s) true sleep subs (g_cbs s) None
                     (g_bad_result s) (g_early s) (g_stop_returned s) (g_cb_after_stop s) (g_subs_at_stop s)
-                    (threads s))
+                    (threads s) false)
   | LProvFinish rv =>
       if p_owns s && negb (p_sleep s) then
         Some (spawn (mkAio (a_stop s) (a_abort s) (a_expiring s) (a_expire_ok s) (a_sleep s) (a_cancel s) (a_on_eq s)
                            (a_expire s) (a_result s) (t_busy s) (t_prep s) (t_queued s) (t_running s) false (p_sleep s)
                            (g_subs s) (g_cbs s) (g_fin s) (g_bad_result s) (g_early s) (g_stop_returned s)
-                           (g_cb_after_stop s) (g_subs_at_stop s) (threads s)) [PFinish rv])
+                           (g_cb_after_stop s) (g_subs_at_stop s) (threads s) (a_done s)) [PFinish rv])
       else None
   | LAbort rv =>
       if N.eqb rv 0 then None else      (* an abort always carries an error code *)
@@ -193,12 +194,19 @@ Definition astep (fixed : bool) (s : aio) (l : alabel) : option aio :=
         Some (spawn (mkAio (a_stop s) (a_abort s) (a_expiring s) (a_expire_ok s) (a_sleep s) false false (a_expire s)
                            (a_result s) (t_busy s) (t_prep s) (t_queued s) (t_running s) (p_owns s) (p_sleep s)
                            (g_subs s) (g_cbs s) (g_fin s) (g_bad_result s) (g_early s) (g_stop_returned s)
-                           (g_cb_after_stop s) (g_subs_at_stop s) (threads s)) [PCallCancel rv])
+                           (g_cb_after_stop s) (g_subs_at_stop s) (threads s) (a_done s)) [PCallCancel rv])
+      else if fdone && a_done s then
+        (* repaired nni_aio_abort (fix e9a11c8): the operation has completed, nothing left to abort
+           (the expire list is touched only by nni_aio_expire_rm, a no-op here) *)
+        Some (mkAio (a_stop s) (a_abort s) (a_expiring s) (a_expire_ok s) (a_sleep s) false false (a_expire s)
+                    (a_result s) (t_busy s) (t_prep s) (t_queued s) (t_running s) (p_owns s) (p_sleep s)
+                    (g_subs s) (g_cbs s) (g_fin s) (g_bad_result s) (g_early s) (g_stop_returned s)
+                    (g_cb_after_stop s) (g_subs_at_stop s) (threads s) (a_done s))
       else
         Some (mkAio (a_stop s) true (a_expiring s) (a_expire_ok s) (a_sleep s) false false (a_expire s)
                     rv (t_busy s) (t_prep s) (t_queued s) (t_running s) (p_owns s) (p_sleep s)
                     (g_subs s) (g_cbs s) (g_fin s) (g_bad_result s) (g_early s) (g_stop_returned s)
-                    (g_cb_after_stop s) (g_subs_at_stop s) (threads s))
+                    (g_cb_after_stop s) (g_subs_at_stop s) (threads s) (a_done s))
   | LExpire now =>
       (* the scan: the aio is due, is unlinked and marked; it is processed later in the batch *)
       (* (one expire thread per queue scans and then processes its batch: an aio it still
@@ -209,20 +217,20 @@ Definition astep (fixed : bool) (s : aio) (l : alabel) : option aio :=
         Some (spawn (mkAio (a_stop s) (a_abort s) true (a_expire_ok s) (a_sleep s) (a_cancel s) false (a_expire s)
                            (a_result s) (t_busy s) (t_prep s) (t_queued s) (t_running s) (p_owns s) (p_sleep s)
                            (g_subs s) (g_cbs s) (g_fin s) (g_bad_result s) (g_early s) (g_stop_returned s)
-                           (g_cb_after_stop s) (g_subs_at_stop s) (threads s)) [PExpireProc now])
+                           (g_cb_after_stop s) (g_subs_at_stop s) (threads s) (a_done s)) [PExpireProc now])
       else None
   | LStop =>
       if a_expiring s then None else     (* waits on eq_cv while the expire loop holds the aio *)
       Some (spawn (mkAio true (a_abort s) false (a_expire_ok s) (a_sleep s) false false (a_expire s) (a_result s)
                          (t_busy s) (t_prep s) (t_queued s) (t_running s) (p_owns s) (p_sleep s) (g_subs s) (g_cbs s)
                          (g_fin s) (g_bad_result s) (g_early s) (g_stop_returned s) (g_cb_after_stop s)
-                         (g_subs_at_stop s) (threads s))
+                         (g_subs_at_stop s) (threads s) (a_done s))
                   ((if a_cancel s then [PCallCancel A_STOPPED] else []) ++ [PStopWait]))
   | LClose =>
       Some (spawn (mkAio true (a_abort s) (a_expiring s) (a_expire_ok s) (a_sleep s) false false (a_expire s) (a_result s)
                          (t_busy s) (t_prep s) (t_queued s) (t_running s) (p_owns s) (p_sleep s) (g_subs s) (g_cbs s)
                          (g_fin s) (g_bad_result s) (g_early s) (g_stop_returned s) (g_cb_after_stop s)
-                         (g_subs_at_stop s) (threads s))
+                         (g_subs_at_stop s) (threads s) (a_done s))
                   (if a_cancel s then [PCallCancel A_STOPPED] else []))
   | LRun k =>
       match nth_error (threads s) k with
@@ -244,7 +252,7 @@ Definition astep (fixed : bool) (s : aio) (l : alabel) : option aio :=
           Some (mkAio (a_stop s) (a_abort s) (a_expiring s) (a_expire_ok s) (a_sleep s) (a_cancel s) (a_on_eq s)
                       (a_expire s) (a_result s) (t_busy s) (t_prep s) q (S (t_running s)) (p_owns s) (p_sleep s)
                       (g_subs s) (S (g_cbs s)) None bad (g_early s) (g_stop_returned s) after
-                      (g_subs_at_stop s) (threads s))
+                      (g_subs_at_stop s) (threads s) (a_done s))
       end
   | LCbDone =>
       match t_running s with
@@ -253,18 +261,18 @@ Definition astep (fixed : bool) (s : aio) (l : alabel) : option aio :=
           Some (mkAio (a_stop s) (a_abort s) (a_expiring s) (a_expire_ok s) (a_sleep s) (a_cancel s) (a_on_eq s)
                       (a_expire s) (a_result s) (pred (t_busy s)) (t_prep s) (t_queued s) r (p_owns s) (p_sleep s)
                       (g_subs s) (g_cbs s) (g_fin s) (g_bad_result s) (g_early s) (g_stop_returned s)
-                      (g_cb_after_stop s) (g_subs_at_stop s) (threads s))
+                      (g_cb_after_stop s) (g_subs_at_stop s) (threads s) (a_done s))
       end
   | LReset =>
       if outstanding s then None else
       Some (mkAio (a_stop s) false (a_expiring s) false false (a_cancel s) (a_on_eq s) (a_expire s) A_OK
                   (t_busy s) (t_prep s) (t_queued s) (t_running s) (p_owns s) (p_sleep s) (g_subs s) (g_cbs s)
                   (g_fin s) (g_bad_result s) (g_early s) (g_stop_returned s) (g_cb_after_stop s)
-                  (g_subs_at_stop s) (threads s))
+                  (g_subs_at_stop s) (threads s) false)
   end.
 
-Fixpoint arun (fixed : bool) (s : aio) (ls : list alabel) : option aio :=
+Fixpoint arun (fixed fdone : bool) (s : aio) (ls : list alabel) : option aio :=
   match ls with
   | [] => Some s
-  | l :: r => match astep fixed s l with Some s1 => arun fixed s1 r | None => None end
+  | l :: r => match astep fixed fdone s l with Some s1 => arun fixed fdone s1 r | None => None end
   end.
